@@ -1571,6 +1571,19 @@ func (x *c05x) famValues(thorough bool) {
 			with("value-truncated", &anypb.Any{TypeUrl: v.GetTypeUrl(), Value: v.GetValue()[:n-1]})
 		}
 		with("value-extended", &anypb.Any{TypeUrl: v.GetTypeUrl(), Value: append(append([]byte(nil), v.GetValue()...), 0)})
+		// WELL-FORMED extensions: fields the value's type does not know (a decoder accepts and keeps them), after and before
+		// the known content - the bytes of the value change, so it no longer hashes to the hash that refers to it
+		for _, uf := range []struct {
+			id string
+			b  []byte
+		}{
+			{"unknown-varint-field-15", protowire.AppendVarint(protowire.AppendTag(nil, 15, protowire.VarintType), 1)},
+			{"unknown-bytes-field-1000", protowire.AppendBytes(protowire.AppendTag(nil, 1000, protowire.BytesType), []byte("extra"))},
+			{"unknown-field-of-the-highest-number", protowire.AppendVarint(protowire.AppendTag(nil, 1<<29-1, protowire.VarintType), 7)},
+		} {
+			with("value-with-"+uf.id+"-appended", &anypb.Any{TypeUrl: v.GetTypeUrl(), Value: append(append([]byte(nil), v.GetValue()...), uf.b...)})
+			with("value-with-"+uf.id+"-prepended", &anypb.Any{TypeUrl: v.GetTypeUrl(), Value: append(append([]byte(nil), uf.b...), v.GetValue()...)})
+		}
 		// every single-field change of the inner UnsignedDataSet, packed again as a well-formed Any
 		inner := new(pbv1.UnsignedDataSet)
 		if err := v.UnmarshalTo(inner); err != nil {
